@@ -255,7 +255,7 @@ class Escapes(object):
 
 # ---- subscripts with a constant index on sequences built from outside data ---------------------------------
 
-def _len_lower_bound(fl, node, name, base_lb):
+def _len_lower_bound(fl, node, name, base_lb, len_alias=None):
     """greatest n such that every path to ``node`` has established len(name) >= n through dominating tests
     (len(x) < k -> leave, len(x) == base_lb -> leave, `not x` -> leave, `if x:`), starting from base_lb."""
     from .bounds import facts
@@ -273,6 +273,12 @@ def _len_lower_bound(fl, node, name, base_lb):
                     lo = fct.get("lo")
                     if lo is not None and lo[0] is None:
                         est = lo[1]
+                if est is None and len_alias is not None and isinstance(t, ast.Compare):
+                    # the sequence was read with exactly `len_alias` elements (x = read_all(n)): a bound on n is a bound on len(x)
+                    for fct in facts(t, len_alias)[arm]:
+                        lo = fct.get("lo")
+                        if lo is not None and lo[0] is None:
+                            est = lo[1]
                 if isinstance(t, ast.Compare) and len(t.ops) == 1 and unparse(t.left) == lenx and isinstance(t.comparators[0], ast.Constant):
                     k = t.comparators[0].value
                     if isinstance(t.ops[0], ast.Eq) and arm == "F" and k == lb:
@@ -317,7 +323,13 @@ def unguarded_constant_subscripts(prog, finfo, origin_ok=None):
                 name = x.value.id
                 defs = fl.defs(name, n)
                 base = None
+                alias = None
                 for (dn, rhs) in defs:
+                    if rhs is not None and isinstance(rhs, ast.Call) and isinstance(rhs.func, ast.Attribute) and rhs.func.attr in ("_read_all", "read_all") \
+                            and len(rhs.args) >= 1 and isinstance(rhs.args[0], ast.Name) and len(defs) == 1:
+                        alias = rhs.args[0].id      # exactly that many bytes, possibly none
+                        base = 0
+                        break
                     if dn.kind == "entry" and name in params:
                         b = 0
                     elif rhs is not None and isinstance(rhs, ast.Call) and isinstance(rhs.func, ast.Attribute) and rhs.func.attr in ("split", "rsplit"):
@@ -331,6 +343,8 @@ def unguarded_constant_subscripts(prog, finfo, origin_ok=None):
                         b = 0       # x = f(x): a transformed copy of unknown length
                     else:
                         b = None
+                    if alias is not None:
+                        break
                     if b is None:
                         base = None
                         break
@@ -340,7 +354,7 @@ def unguarded_constant_subscripts(prog, finfo, origin_ok=None):
                 if origin_ok is not None and not origin_ok(finfo, name):
                     continue
                 need = kv + 1 if kv >= 0 else -kv
-                have = _len_lower_bound(fl, n, name, base)
+                have = _len_lower_bound(fl, n, name, base, alias)
                 if have < need:
                     out.append((x, need, have, "len(%s) >= %d needed, only >= %d established on some path" % (name, need, have)))
     return out
